@@ -11,7 +11,7 @@ def core_schema():
         _price="float", _value="float", _notl_value="float", _weight="float", _capital="float",
         _issec="bool", _has_strat_children="bool", _fixed_income="bool", _bidoffer_set="bool",
         _bidoffer_paid="float", integer_positions="bool", _original_children_are_present="bool",
-        children="dict", _childrenv="list", lazy_add="bool", data="frame", _universe="frame",
+        children="dict", _lazy_children="dict", _childrenv="list", lazy_add="bool", data="frame", _universe="frame",
     )
     # StrategyBase
     s.declare(
